@@ -200,13 +200,52 @@ func tycTerm(fc *validate.FieldConstraints) (string, *validate.FieldConstraints)
 		return fmt.Sprintf("(CEnum %s %s %s)", vh.BoolTerm(*t.Enum.DefinedOnly), zlist(t.Enum.In), zlist(t.Enum.NotIn)),
 			&validate.FieldConstraints{Type: &validate.FieldConstraints_Enum{Enum: &validate.EnumRules{DefinedOnly: t.Enum.DefinedOnly, In: t.Enum.In, NotIn: t.Enum.NotIn}}}
 	case *validate.FieldConstraints_Timestamp:
-		return "CTimestamp", &validate.FieldConstraints{Type: &validate.FieldConstraints_Timestamp{Timestamp: &validate.TimestampRules{}}}
+		ub, lb := "NoUb", "NoLb"
+		r := &validate.TimestampRules{}
+		secs := func(ts interface {
+			GetSeconds() int64
+			GetNanos() int32
+		}) (int64, bool) {
+			return ts.GetSeconds(), ts.GetNanos() == 0
+		}
+		ok := true
+		switch b := t.Timestamp.GetLessThan().(type) {
+		case *validate.TimestampRules_Lt:
+			s, o := secs(b.Lt)
+			ok = ok && o
+			ub = fmt.Sprintf("(Lt (%d)%%Z)", s)
+			r.LessThan = &validate.TimestampRules_Lt{Lt: b.Lt}
+		case *validate.TimestampRules_Lte:
+			s, o := secs(b.Lte)
+			ok = ok && o
+			ub = fmt.Sprintf("(Lte (%d)%%Z)", s)
+			r.LessThan = &validate.TimestampRules_Lte{Lte: b.Lte}
+		}
+		switch b := t.Timestamp.GetGreaterThan().(type) {
+		case *validate.TimestampRules_Gt:
+			s, o := secs(b.Gt)
+			ok = ok && o
+			lb = fmt.Sprintf("(Gt (%d)%%Z)", s)
+			r.GreaterThan = &validate.TimestampRules_Gt{Gt: b.Gt}
+		case *validate.TimestampRules_Gte:
+			s, o := secs(b.Gte)
+			ok = ok && o
+			lb = fmt.Sprintf("(Gte (%d)%%Z)", s)
+			r.GreaterThan = &validate.TimestampRules_Gte{Gte: b.Gte}
+		}
+		if !ok {
+			return "COther", nil
+		}
+		return fmt.Sprintf("(CTimestamp %s %s)", ub, lb), &validate.FieldConstraints{Type: &validate.FieldConstraints_Timestamp{Timestamp: r}}
 	case *validate.FieldConstraints_Map:
 		mr := t.Map
 		values := "None"
 		r := &validate.MapRules{MinPairs: mr.MinPairs, MaxPairs: mr.MaxPairs}
 		if mr.Values != nil {
 			it, back := tycTerm(mr.Values)
+			if it == "" && back != nil {
+				it = "CEmpty" // a FieldConstraints without a type
+			}
 			if it == "" || back == nil || mr.Values.Required != nil {
 				return "COther", nil
 			}
@@ -221,6 +260,9 @@ func tycTerm(fc *validate.FieldConstraints) (string, *validate.FieldConstraints)
 		r := &validate.RepeatedRules{MinItems: rr.MinItems, MaxItems: rr.MaxItems, Unique: rr.Unique}
 		if rr.Items != nil {
 			it, back := tycTerm(rr.Items)
+			if it == "" && back != nil {
+				it = "CEmpty" // a FieldConstraints without a type
+			}
 			if it == "" || back == nil || rr.Items.Required != nil {
 				return "COther", nil
 			}
